@@ -601,6 +601,15 @@ func (r *RegisteredDecoys) TrackIfNotExists(d *DecoyRegistration) (bool, error) 
 	return false, nil
 }
 
+// timeoutIndex returns the index of a registration's timeout record. There is one record per
+// tracked registration, so the index is built from the same pair that indexes the registration
+// itself (phantom address and transport identifier). Indexing by shared secret and phantom instead
+// would make registrations of one secret with several transports on the same phantom share - and
+// overwrite - a single record, and whichever lost its record would never expire.
+func timeoutIndex(phantomAddr, identifier string) string {
+	return phantomAddr + "|" + identifier
+}
+
 // For use inside of this struct (so no deadlocks on struct mutex)
 func (r *RegisteredDecoys) track(d *DecoyRegistration) error {
 
@@ -637,7 +646,7 @@ func (r *RegisteredDecoys) track(d *DecoyRegistration) error {
 		regID:            d.IDString(),
 		status:           regStatusUnused,
 	}
-	r.decoysTimeouts[d.IDString()+phantomAddr] = newTimeout
+	r.decoysTimeouts[timeoutIndex(phantomAddr, identifier)] = newTimeout
 
 	return nil
 }
@@ -678,8 +687,12 @@ func (r *RegisteredDecoys) markActive(d *DecoyRegistration) {
 	r.m.Lock()
 	defer r.m.Unlock()
 
-	phantomAddr := d.PhantomIp.String()
-	if regTimeout, ok := r.decoysTimeouts[d.IDString()+phantomAddr]; ok {
+	t, ok := r.transports[d.Transport]
+	if !ok {
+		return
+	}
+
+	if regTimeout, ok := r.decoysTimeouts[timeoutIndex(d.PhantomIp.String(), t.GetIdentifier(d))]; ok {
 		regTimeout.status = regStatusUsed
 
 		// Since we update the applicable timeout here, we should update that
